@@ -88,7 +88,7 @@ func (w *World) EvalQuiescent() {
 	for _, st := range sessions {
 		a, b := w.Names[st.PeerA], w.Names[st.PeerB]
 		sides := []struct {
-			me, other      string
+			me, other     string
 			att, otherAtt bool
 		}{{a, b, st.AttachedA, st.AttachedB}, {b, a, st.AttachedB, st.AttachedA}}
 		for _, sd := range sides {
